@@ -3078,9 +3078,10 @@ class PlateSlicer(Slicer):
         Returns: New Plate with requested substances removed.
 
         """
-        self.plate = deepcopy(self.plate)
-        self.apply(lambda elem: elem.remove(what))
-        return self.plate
+        result = copy(self)
+        result.plate = deepcopy(self.plate)
+        result.apply(lambda elem: elem.remove(what))
+        return result.plate
 
     def fill_to(self, solvent: Substance, quantity: str):
         """
@@ -3093,7 +3094,8 @@ class PlateSlicer(Slicer):
         Returns: New Plate with desired final `quantity` in each well.
 
         """
-        self.plate = deepcopy(self.plate)
-        self.apply(lambda elem: elem.fill_to(solvent, quantity))
+        result = copy(self)
+        result.plate = deepcopy(self.plate)
+        result.apply(lambda elem: elem.fill_to(solvent, quantity))
 
-        return self.plate
+        return result.plate
